@@ -109,27 +109,39 @@ Proof.
   apply in_map_iff. exists (a, b). split; [reflexivity | exact H].
 Qed.
 
-Lemma reachable_closed : forall g es fuel,
-  length (universe g es) <= fuel ->
+(* U is any list that contains the entries and every edge target, e.g. the list
+   of all nodes without repetition: then [length U] is the number of nodes *)
+Lemma reachable_closed_nodes : forall g es U fuel,
+  incl es U -> (forall a b, In (a, b) g -> In b U) -> length U <= fuel ->
   incl es (reachable g es fuel) /\ closed g (reachable g es fuel).
 Proof.
-  intros g es fuel Hf. unfold reachable.
-  destruct (reach_iter_closed g (universe g es) (universe_targets g es) fuel (fresh [] es)) as [I1 I2].
+  intros g es U fuel HeU HgU Hf. unfold reachable.
+  destruct (reach_iter_closed g U HgU fuel (fresh [] es)) as [I1 I2].
   - apply fresh_NoDup.
-  - intros x Hx. apply fresh_In in Hx. destruct Hx as [Hx _]. unfold universe. apply in_app_iff. left. exact Hx.
+  - intros x Hx. apply fresh_In in Hx. destruct Hx as [Hx _]. apply HeU. exact Hx.
   - lia.
   - split; [|exact I2]. intros x Hx. apply I1. apply fresh_In. split; [exact Hx | intros []].
 Qed.
 
 (* soundness: with fuel >= the number of nodes, everything connected to an entry
    point by a path of edges is in the result *)
-Theorem reach_sound : forall g es fuel x,
-  length (universe g es) <= fuel -> path g es x -> In x (reachable g es fuel).
+Theorem reach_sound_nodes : forall g es U fuel x,
+  incl es U -> (forall a b, In (a, b) g -> In b U) -> length U <= fuel ->
+  path g es x -> In x (reachable g es fuel).
 Proof.
-  intros g es fuel x Hf P. destruct (reachable_closed g es fuel Hf) as [I C].
+  intros g es U fuel x HeU HgU Hf P. destruct (reachable_closed_nodes g es U fuel HeU HgU Hf) as [I C].
   induction P as [e He | a b _ IH Hab].
   - apply I. exact He.
   - eapply C; eassumption.
+Qed.
+
+(* the instance the checker uses: [universe] lists the nodes with repetitions *)
+Theorem reach_sound : forall g es fuel x,
+  length (universe g es) <= fuel -> path g es x -> In x (reachable g es fuel).
+Proof.
+  intros g es fuel x Hf. apply reach_sound_nodes with (U := universe g es); [| |exact Hf].
+  - intros e He. unfold universe. apply in_app_iff. left. exact He.
+  - apply universe_targets.
 Qed.
 
 (* completeness: for any fuel, the result contains only connected nodes *)
